@@ -79,6 +79,10 @@ CHECKS = {
    technique="explicit-state BFS over handle_pkt to enumerate reachable lease stores, each read at boundary clocks through the real /metrics endpoint; plus exhaustive enumeration of host-name / client-identifier octets through real DISCOVERs and the real lease listing, parsed by a strict JSON parser",
    text="Gauges are compared with the store for every reachable store of the search and every clock value at each row's expiry -1/+0/+1 (and the empty store after non-empty ones); the listing is requested from the real HTTP API over the unix control socket for stores holding one lease per enumerated host-name/identifier value and compared entry by entry with the rows.",
    note="expiry == now may be counted either way. The DhcpService is built by the verif_new hook (ephemeral UDP port instead of 67)."),
+ "C02": dict(level="exploration", engine="E-ENUM + drain histories", design="5/C02",
+   technique="bounded-exhaustive enumeration of configurations (every prefix length x server/reserved address placement; policy trees over a 16-address universe) through the real YAML loader; pools observed by build_default_config and by draining the real handle_pkt with fresh clients until exhaustion, compared with an independent reference of the documented sets",
+   text="For the addresses form the computed pool must equal hosts - server - reserved for every prefix length; for policy trees every (tree, hardware address) pool is drained through the real handler and the set of addresses handed out must equal the documented pool (own addresses minus everything added by sub-policies, first matching sibling, condition-less policies apply iff a sub-policy does).",
+   note="Don't-care: overlapping pools of sibling policies, the server's own address inside an explicit pool. Prefixes shorter than /10 are not materialised (resource use)."),
 }
 
 NOT_YET = {
